@@ -140,7 +140,7 @@ func H08_dict() {
 	vAssert(dict.Cardinality() == total, "cardinality")
 	autos := vAutomata()
 	if vParam("lite", 0) == 1 {
-		autos = []vAutoSpec{autos[0], autos[2], autos[4]}
+		autos = []vAutoSpec{autos[0], autos[2]}
 	}
 	au := autos[vChoice("auto", len(autos))]
 	// range bounds: absent, below all (""), equal to a term, between terms, above all
